@@ -21,7 +21,8 @@ MANIFEST = dict(
          "Partial: five deviation classes of the pinned tree are witness theorems + known findings (final observer stays open after its onNext panics; Error/Complete-position callbacks; (Future, formerly listed, is repaired by 8bf73dd + 34cf01a and is now the theorem future_factory_panic); "
          "teardown panics re-raised into the producer / dropped; subscriberImpl.NextWithContext without deferred unlock). Not covered: Share/subject scenarios (iv, subject half of v), multi-source operators."
          ' Panic values that are errors the library has already wrapped (ro.Observable: ro.Observer: user-n) keep their whole chain when wrapped again (fault value pw); an error of the source crosses ObserveOn / SubscribeOn / ToChannel also under an already-cancelled subscription context (kind=chan cc=1, terminal compared).'
-         ' The partial observers swallow a panic of their one callback in the empty error callback they are built with: the unhandled hook stays silent (partial_observer_unhandled_silent); observers with NIL callbacks: the panic reaches the unhandled hook wrapped once, the observer stays open (nil_error_callback_panic_unhandled; kind=nilobs).',
+         ' The partial observers swallow a panic of their one callback in the empty error callback they are built with: the unhandled hook stays silent (partial_observer_unhandled_silent); observers with NIL callbacks: the panic reaches the unhandled hook wrapped once, the observer stays open (nil_error_callback_panic_unhandled; kind=nilobs).'
+         " An error of a fallback / of a later attempt (Catch, OnErrorResumeNextWith, Retry*), also when that attempt runs on a goroutine of its own and fails after Subscribe has returned, surfaces once (the kind=resub runs read through C07's projection; C15 among the modules); kind=fault op=RawDirect (hand-written observer subscribed directly; subscribe function panics after i notifications).",
     technique="Lean 4 proof (simulation of the fault interpreter by runOp of an injected machine, invariants over the interpreter, decide over the regenerated go-statement table) + differential correspondence with fault injection",
     ref='5/C07')
 
